@@ -15,7 +15,15 @@ Extra == {[conns |-> k, msgs |-> m, pattern |-> p, via |-> v, holdc |-> hc, hold
 \* happens it is still one handler at a time per connection, in arrival order.
 RegPending == {[conns |-> k, msgs |-> m, pattern |-> "burst", via |-> v, holdc |-> 1, holdi |-> 1, flavour |-> "regpending"] :
                  k \in 2..3, m \in 2..3, v \in {"server", "dial"}}
-Init == s \in Extra \cup RegPending \cup {[conns |-> k, msgs |-> m, pattern |-> p, via |-> v, holdc |-> hc, holdi |-> hi, flavour |-> fl] :
+\* "cn": the handler of each connection's first message requests CloseNotify (the reader switches to the pipe fed by
+\* the copier goroutine); the following messages arrive one by one, each after the previous one was handled
+WithCN == {[conns |-> k, msgs |-> m, pattern |-> "interleaved", via |-> v, holdc |-> 0, holdi |-> 0, flavour |-> "cn"] :
+             k \in 1..2, m \in 3..4, v \in {"server", "dial"}}
+\* "panicreg": connection 1's first handler panics (only that connection is dropped), then the application registers
+\* a further handler, then the other connections receive their messages
+PanicReg == {[conns |-> k, msgs |-> 2, pattern |-> "burst", via |-> v, holdc |-> 0, holdi |-> 0, flavour |-> "panicreg"] :
+               k \in 2..3, v \in {"server", "dial"}}
+Init == s \in Extra \cup RegPending \cup WithCN \cup PanicReg \cup {[conns |-> k, msgs |-> m, pattern |-> p, via |-> v, holdc |-> hc, holdi |-> hi, flavour |-> fl] :
                  k \in 1..MaxConns, m \in 2..MaxMsgs, p \in {"burst", "bytes", "interleaved"}, v \in {"server", "dial", "tcp"},
                  hc \in 0..MaxConns, hi \in 0..MaxMsgs, fl \in {"req", "ans", "mixed", "dwr"}}
 Next == UNCHANGED s
